@@ -1,2 +1,89 @@
-(** placeholder while the proofs are being written *)
-From JR Require Import Sched Future.
+(** Property C16 — Future completion protocol (EventData / FutureResult, jsonrpclib/threadpool.py).
+    Statements only.  Quantification: EVERY program [c : cfg] (how the task ends; for every
+    registrar whether its callback returns, raises or has the wrong arity; for every observer which
+    of done() / result(timeout) / result() it calls), any number of registrar and observer threads,
+    EVERY schedule [sched : list move] at source-line / synchronisation-operation granularity
+    (a timed wait may expire at any moment).  [run_future c sched] is the state after the schedule.
+
+    Reading (DESIGN.md 4/C16): set_callback has set semantics.  A registration is OWED one call iff
+    it is the last one that took effect before completion or it took effect after completion, where
+    "took effect" is the order in which the registrations and execute() acquire the future's lock
+    (ghost fields hpre / hpost / hdone of the model). *)
+From Coq Require Import List.
+From JR Require Import Sched Future FutureInv FutureTheorems.
+
+(** while the task has not finished: done() is False; nothing but "not done"/"timed out" has been
+    observed; a done() made now returns False, a result(timeout) made now raises OSError when its
+    timeout expires, a result() made now blocks *)
+Theorem C16_not_done_before_finish : forall c sched,
+  let s := run_future c sched in
+  body_finished s = false ->
+  done s = false /\
+  (forall j o, oobs s j = Some o -> o = ObsDone false \/ o = ObsTimeout) /\
+  (forall j, op s j = O_start ->
+     match obsk c j with
+     | ODone => exists s1, step c s (Go (TO j)) = Some s1 /\ oobs s1 j = Some (ObsDone false)
+     | OResultT => step c s (Go (TO j)) = None /\
+                   exists s1 s2, step c s (Fire (TO j)) = Some s1 /\ step c s1 (Go (TO j)) = Some s2 /\
+                                 oobs s2 j = Some ObsTimeout
+     | OResult => step c s (Go (TO j)) = None /\ step c s (Fire (TO j)) = None
+     end).
+Proof. exact not_done_before_finish. Qed.
+Print Assumptions C16_not_done_before_finish.
+
+(** data before event: once done() can return True the outcome is stored *)
+Theorem C16_outcome_visible_when_done : forall c sched,
+  let s := run_future c sched in
+  done s = true -> data s = out_data (body c) /\ exc s = out_exc (body c).
+Proof. exact outcome_visible_when_done. Qed.
+Print Assumptions C16_outcome_visible_when_done.
+
+(** every call started once the future is done returns the task's value / raises the task's
+    exception object, whatever runs concurrently or later *)
+Theorem C16_result_consistent : forall c p q j,
+  let s := run_future c p in
+  done s = true -> op s j = O_start ->
+  forall o, oobs (run (step c) q s) j = Some o -> o = expected_obs c (obsk c j).
+Proof. exact result_consistent. Qed.
+Print Assumptions C16_result_consistent.
+
+(** and no call ever observes anything else than the final outcome, "not done" or "timed out" *)
+Theorem C16_observations_classified : forall c sched j o,
+  oobs (run_future c sched) j = Some o ->
+  o = expected_obs c (obsk c j) \/ (o = ObsDone false /\ obsk c j = ODone) \/ (o = ObsTimeout /\ obsk c j = OResultT).
+Proof. exact observations_classified. Qed.
+Print Assumptions C16_observations_classified.
+
+(** when every started execute() / set_callback() has returned: a registration was called exactly
+    once if it is owed a call and never otherwise, each call with (result, exception, its own extra) *)
+Theorem C16_callback_exactly_once : forall c sched,
+  let s := run_future c sched in
+  settled s ->
+  forall i,
+    ncalls s i = (if owed s i then 1 else 0) /\
+    (rp s i = R_lock -> owed s i = false) /\
+    (forall k, In k (calls s) -> c_cb k = i ->
+       c_res k = out_data (body c) /\ c_exc k = out_exc (body c) /\ c_extra k = Some i).
+Proof. exact callback_exactly_once. Qed.
+Print Assumptions C16_callback_exactly_once.
+
+(** in every intermediate state as well: never twice, never before the outcome is visible *)
+Theorem C16_callback_at_most_once : forall c sched i, ncalls (run_future c sched) i <= 1.
+Proof. exact callback_at_most_once. Qed.
+Print Assumptions C16_callback_at_most_once.
+
+Theorem C16_callback_only_after_done : forall c sched i,
+  let s := run_future c sched in
+  0 < ncalls s i -> done s = true /\ data s = out_data (body c) /\ exc s = out_exc (body c).
+Proof. exact callback_only_after_done. Qed.
+Print Assumptions C16_callback_only_after_done.
+
+(** a raising or ill-typed callback is contained: each failure is logged, the stored outcome and
+    the way execute() ends are those of the task alone *)
+Theorem C16_callback_exception_contained : forall c sched,
+  let s := run_future c sched in
+  logged s = length (filter (fun k => raises (rkind c (c_cb k))) (calls s)) /\
+  (xp s = X_end -> xout s = Some (xcont (body c)) /\ data s = out_data (body c) /\ exc s = out_exc (body c)) /\
+  (forall i, rp s i = R_notify \/ rp s i = R_end -> done s = true \/ rcomp s i = false).
+Proof. exact callback_exception_contained. Qed.
+Print Assumptions C16_callback_exception_contained.
